@@ -108,14 +108,14 @@ func iRLock(in *Interp, th *Thread, args []Value, fn *ssa.Function) (Value, call
 	if s.locked {
 		panic(&blockedErr{th})
 	}
-	in.touch(s.id)
+	in.touchRead(s.id)
 	s.readers++
 	return nil, csDone
 }
 
 func iRUnlock(in *Interp, th *Thread, args []Value, fn *ssa.Function) (Value, callStatus) {
 	s := in.syncOf(args[0].(Ptrv))
-	in.touch(s.id)
+	in.touchRead(s.id)
 	if s.readers <= 0 {
 		in.startPanic(th, IfaceV{T: types.Typ[types.String], V: in.constStr("sync: RUnlock of unlocked RWMutex")}, "fatal: RUnlock of unlocked RWMutex")
 		return nil, csPanicked
@@ -126,7 +126,8 @@ func iRUnlock(in *Interp, th *Thread, args []Value, fn *ssa.Function) (Value, ca
 
 func iWgAdd(in *Interp, th *Thread, args []Value, fn *ssa.Function) (Value, callStatus) {
 	s := in.syncOf(args[0].(Ptrv))
-	in.touch(s.id)
+	// Add/Done commute with each other; only Wait (write mode) observes the counter
+	in.touchRead(s.id)
 	d := args[1].(BVv).T
 	if !d.IsConst() {
 		panic(abortf("UNSUPPORTED", "WaitGroup.Add with symbolic delta"))
@@ -141,7 +142,7 @@ func iWgAdd(in *Interp, th *Thread, args []Value, fn *ssa.Function) (Value, call
 
 func iWgDone(in *Interp, th *Thread, args []Value, fn *ssa.Function) (Value, callStatus) {
 	s := in.syncOf(args[0].(Ptrv))
-	in.touch(s.id)
+	in.touchRead(s.id)
 	s.count--
 	if s.count < 0 {
 		in.startPanic(th, IfaceV{T: types.Typ[types.String], V: in.constStr("sync: negative WaitGroup counter")}, "panic: negative WaitGroup counter")
